@@ -130,6 +130,45 @@ func harnessError(format string, a ...interface{}) {
 	eng.HarnessError(format, a...)
 }
 
+// rawWrite / rawRead: plain system calls (os.OpenFile adds fcntl + epoll_ctl round trips per file,
+// which dominate the cost of a case).
+func rawWrite(path string, content string, perm uint32) error {
+	fd, err := syscall.Open(path, syscall.O_WRONLY|syscall.O_CREAT|syscall.O_TRUNC|syscall.O_CLOEXEC, perm)
+	if err != nil {
+		return &os.PathError{Op: "open", Path: path, Err: err}
+	}
+	defer syscall.Close(fd)
+	if len(content) > 0 {
+		if _, err := syscall.Write(fd, []byte(content)); err != nil {
+			return &os.PathError{Op: "write", Path: path, Err: err}
+		}
+	}
+	return nil
+}
+
+func rawRead(path string) string {
+	fd, err := syscall.Open(path, syscall.O_RDONLY|syscall.O_CLOEXEC, 0)
+	if err != nil {
+		return "<unreadable: " + err.Error() + ">"
+	}
+	defer syscall.Close(fd)
+	var buf [256]byte
+	var out []byte
+	for {
+		n, err := syscall.Read(fd, buf[:])
+		if n > 0 {
+			out = append(out, buf[:n]...)
+		}
+		if n <= 0 || err != nil {
+			break
+		}
+		if n < len(buf) {
+			break
+		}
+	}
+	return string(out)
+}
+
 func must(err error) {
 	if err != nil {
 		harnessError("fixture: %v", err)
@@ -143,8 +182,7 @@ func (w *worker) outIntact() string {
 		if err != nil || !fi.Mode().IsRegular() || fi.Mode().Perm() != 0644 {
 			return fmt.Sprintf("outside file %s changed: %v %v", f.n, fi, err)
 		}
-		b, _ := os.ReadFile(p)
-		if string(b) != f.c {
+		if b := rawRead(p); b != f.c {
 			return fmt.Sprintf("outside file %s content changed to %q", f.n, b)
 		}
 	}
@@ -181,16 +219,16 @@ func place(w *worker, path string, kind int) {
 	switch kind {
 	case kAbsent:
 	case kRegV0:
-		must(os.WriteFile(path, []byte(c0), 0644))
+		must(rawWrite(path, c0, 0644))
 	case kRegOther:
-		must(os.WriteFile(path, []byte(c1), 0644))
+		must(rawWrite(path, c1, 0644))
 	case kRegMode:
-		must(os.WriteFile(path, []byte(c0), 0600))
+		must(rawWrite(path, c0, 0600))
 	case kEmptyDir:
 		must(os.Mkdir(path, 0755))
 	case kNonEmptyDir:
 		must(os.Mkdir(path, 0755))
-		must(os.WriteFile(filepath.Join(path, "keep"), []byte("k"), 0644))
+		must(rawWrite(filepath.Join(path, "keep"), "k", 0644))
 	case kSymlink:
 		must(os.Symlink(w.t0, path))
 	}
@@ -289,8 +327,7 @@ func snapshot(dir string) map[string]ent {
 		}
 		switch {
 		case fi.Mode().IsRegular():
-			b, _ := os.ReadFile(p)
-			res[e.Name()] = ent{Kind: "reg", Content: string(b), Perm: uint32(fi.Mode().Perm())}
+			res[e.Name()] = ent{Kind: "reg", Content: rawRead(p), Perm: uint32(fi.Mode().Perm())}
 		case fi.Mode()&os.ModeSymlink != 0:
 			t, _ := os.Readlink(p)
 			res[e.Name()] = ent{Kind: "sym", Target: t}
@@ -780,7 +817,7 @@ func scratchDir(t *testing.T) string {
 }
 
 func TestC23(t *testing.T) {
-	r := eng.Start("C23", "fault_enumeration", 90*time.Second, 14*time.Minute)
+	r := eng.Start("C23", "fault_enumeration", 100*time.Second, 14*time.Minute)
 	r.Assume("faults are placed through the file system only (reference to a missing source file, directory in the way, non-empty directory as non-removable stale entry); I/O errors of a healthy file system (ENOSPC, EIO) are not injected",
 		"the reference model (expected state, lists, allowed outcomes) is written from the property statement and the function's doc comment",
 		"an initial symlink whose target already has exactly the desired content and mode is not generated (the implementation compares through the link and keeps it; see design_deviations)",
